@@ -28,6 +28,9 @@ fn workloads() -> Vec<(Cfg, Vec<Value>)> {
     c3.flush_after = 3;
     c3.merge = "log".into();
     out.push((c3, vec![a(1, "a"), a(2, "a"), a(3, "b"), a(4, "c"), c(), json!({"op":"run","ops":[{"k":"del","t":"a"},{"k":"add","id":5,"t":"a","v":1}]}), c(), a(6, "b"), json!({"op":"drop_writer"}), json!({"op":"new_writer"}), a(7, "b"), d("b"), a(8, "b"), c(), json!({"op":"merge"}), c()]));
+    // a merge whose own meta.json replacement may fail, a collection and a reload BEFORE the next commit
+    let g = || json!({"op":"gc"});
+    out.push((c1.clone(), vec![a(1, "a"), a(2, "b"), a(3, "a"), c(), d("a"), a(4, "c"), c(), d("b"), c(), g(), json!({"op":"merge"}), g(), a(5, "b"), g(), d("c"), c(), g(), a(6, "a"), c()]));
     out
 }
 
@@ -60,7 +63,7 @@ fn run_one(tracer: &Tracer, cfg: &Cfg, ops: &[Value], plan: Option<FaultPlan>, p
                 }
             }
             let ev = w.exec(op);
-            if matches!(op["op"].as_str(), Some("commit") | Some("prepare_commit") | Some("merge") | Some("rollback")) {
+            if matches!(op["op"].as_str(), Some("commit") | Some("prepare_commit") | Some("merge") | Some("rollback") | Some("gc")) {
                 w.exec(&json!({"op":"reload"}));
             }
             let failed = ev["ok"] == json!(false) && ev.get("err").map(|e| e != "nowriter").unwrap_or(true);
@@ -178,6 +181,28 @@ fn main() {
     std::panic::set_hook(Box::new(|_| {}));
     if a.pos.get(0).map(|s| s.as_str()) == Some("f40") {
         run_f40(&tracer);
+        tracer.flush();
+        return;
+    }
+    if a.pos.get(0).map(|s| s.as_str()) == Some("publish") {
+        // every transient fault in a publication step (atomic_write of meta.json / .managed.json,
+        // sync_directory) of the workload that collects and reloads between its commits and its
+        // merge; the writer is kept after the failing call
+        let (cfg, ops) = &wl[3];
+        let sink = Tracer::sink();
+        let (n, oplog) = run_one(&sink, cfg, ops, None, "keep", json!({}), true);
+        for (k, op, class) in &oplog {
+            if class == "lock" || !(*op == "atomic_write" || *op == "sync_directory") {
+                continue;
+            }
+            for after_effect in [false, true] {
+                if after_effect && *op != "atomic_write" {
+                    continue;
+                }
+                let plan = FaultPlan { k: *k, permanent: false, skip_locks: true, after_effect, ..Default::default() };
+                run_one(&tracer, cfg, ops, Some(plan), "keep", json!({"workload":3,"k":k,"permanent":false,"policy":"keep","n":n,"publish":true,"after_effect":after_effect,"fop":op,"class":class}), false);
+            }
+        }
         tracer.flush();
         return;
     }
